@@ -26,3 +26,83 @@ func Harness_C19_registry_claim_race() {
 	}
 	verif_Cover("C19.reg.done")
 }
+
+// Histories on the legacy registry: mappings (each with an id of its own) of two clients are
+// registered for two names, released by name or by mapping id - also by the id of a mapping that
+// was released long ago - and the registry is rebuilt from a mapping list. After every step each
+// name routes to the mapping that currently owns it (client, target and id), or to nothing, and is
+// reported available exactly when nobody owns it.
+func Harness_C19_registry_histories() {
+	r := NewDomainRegistry([]string{"tunnox.net"})
+	subs := []string{"app", "api"}
+	owner := map[string]*models.PortMapping{} // full domain -> current owner
+	var all []*models.PortMapping              // every mapping ever made
+	seq := 0
+	mk := func(sub string, c int64) *models.PortMapping {
+		seq++
+		m := &models.PortMapping{ID: []string{"pm_0", "pm_1", "pm_2", "pm_3", "pm_4", "pm_5", "pm_6"}[seq], Protocol: models.ProtocolHTTP, HTTPSubdomain: sub, HTTPBaseDomain: "tunnox.net",
+			TargetClientID: c, TargetHost: "127.0.0.1", TargetPort: 8000 + seq, Status: models.MappingStatusActive}
+		all = append(all, m)
+		return m
+	}
+	check := func() {
+		for _, sub := range subs {
+			d := sub + ".tunnox.net"
+			got, ok := r.LookupByHost(d + ":443")
+			want := owner[d]
+			if want == nil {
+				verif_Assert("C19.reghist.unowned_not_routed", !ok || got == nil)
+				verif_Assert("C19.reghist.unowned_available", r.IsSubdomainAvailable(sub, "tunnox.net"))
+			} else {
+				verif_Assert("C19.reghist.routes_to_owner", ok && got != nil && got.ID == want.ID && got.TargetClientID == want.TargetClientID && got.TargetPort == want.TargetPort)
+				verif_Assert("C19.reghist.owned_not_available", !r.IsSubdomainAvailable(sub, "tunnox.net"))
+			}
+		}
+	}
+	n := verif_Bound("events")
+	for i := 0; i < n; i++ {
+		switch verif_Choose(4) {
+		case 0:
+			sub := subs[verif_Choose(2)]
+			m := mk(sub, []int64{1001, 2002}[verif_Choose(2)])
+			err := r.Register(m)
+			d := sub + ".tunnox.net"
+			if owner[d] == nil {
+				verif_Assert("C19.reghist.free_name_registered", err == nil)
+				owner[d] = m
+			} else {
+				verif_Assert("C19.reghist.owned_name_refused", err != nil)
+				verif_Cover("C19.reghist.refused")
+			}
+		case 1:
+			d := subs[verif_Choose(2)] + ".tunnox.net"
+			r.Unregister(d)
+			delete(owner, d)
+		case 2:
+			if len(all) == 0 {
+				continue
+			}
+			m := all[verif_Choose(len(all))]
+			r.UnregisterByMappingID(m.ID)
+			d := m.HTTPSubdomain + ".tunnox.net"
+			if owner[d] == m {
+				delete(owner, d)
+				verif_Cover("C19.reghist.released_by_id")
+			} else {
+				verif_Cover("C19.reghist.stale_id_release")
+			}
+		case 3:
+			// restart: the registry is rebuilt from the mappings that currently own a name
+			var live []*models.PortMapping
+			for _, sub := range subs {
+				if m := owner[sub+".tunnox.net"]; m != nil {
+					live = append(live, m)
+				}
+			}
+			r.Rebuild(live)
+			verif_Cover("C19.reghist.rebuilt")
+		}
+		check()
+	}
+	verif_Cover("C19.reghist.done")
+}
